@@ -299,6 +299,23 @@ def run(ctx):
                         a = render(g.sym_operand(t["args"][1])) if len(t["args"]) > 1 else "None"
                     okc = okc or "None" in a
         ctx.check(okc, "STATE", "C15:STATE:fallback-guard:cleared-clears", "MissingFieldLocationGuard::cleared replaces the cell's value by None and keeps the old one", "MissingFieldLocationGuard::cleared no longer empties the fallback cell", config, ctx.where(gcl))
+        # who READS the fallback: only Serde's location-less static constructors (the `serde::de::Error` impl), which run while
+        # the user code of the call is on the stack — i.e. inside the document scope, where the cell holds this call's own value.
+        # Read after the scope has returned (an entry point polishing its error) the cell holds the *enclosing* call's value again.
+        att = fx.fn("de_error::maybe_attach_fallback_location")
+        ctx.saw(att)
+        readers = sorted({g.npath for g, _b in fx.callers.get(att.npath, [])})
+        okr = bool(readers) and all(r.startswith("<de_error::Error as serde::de::Error>::") for r in readers)
+        ctx.check(okr, "STATE", "C15:STATE:fallback-cell:readers", "the fallback location is attached only by Serde's static error constructors (%d callers)" % len(readers),
+                  "the fallback location is also attached by %s: outside the document scope the cell holds the enclosing call's value, so a nested call's error is stamped with a position of the outer document" % [r for r in readers if not r.startswith("<de_error::Error as serde::de::Error>::")], config, ctx.where(att))
+        cell_readers = set()
+        for g in fx.fns.values():
+            if not g.file.endswith("de_error.rs"):
+                continue
+            for b, t in g.calls():
+                if fx.callee(t) in ("std::cell::Cell::get",):
+                    cell_readers.add(fx.fns[g.root].npath if g.kind == "closure" and g.root in fx.fns else g.npath)
+        ctx.check(cell_readers <= {att.npath} and bool(cell_readers), "STATE", "C15:STATE:fallback-cell:get", "the cell is read only by maybe_attach_fallback_location", "the fallback cell is also read by %s" % sorted(cell_readers - {att.npath}), config, ctx.where(att))
         gd2 = fx.fn("<de_error::MissingFieldLocationGuard as std::ops::Drop>::drop")
         okr = False
         for g in fx.family(gd2):
